@@ -244,7 +244,7 @@ Proof. unfold h_lt. rewrite N.eqb_refl. apply N.ltb_irrefl. Qed.
     (1); only the delay (5) can stand between the proof and its verification against the installed root. *)
 Definition installed_gate (tnow t : N) (fx prf : bytes) (c : client_state) (cns : cons_state) : nat :=
   match c with
-  | ClTm _ _ _ delay _ => if t <? add64 tnow delay then 5%nat else root_gate fx cns
+  | ClTm _ _ _ delay _ => if (add64 tnow delay <? tnow) || (t <? add64 tnow delay) then 5%nat else root_gate fx cns
   | ClBsc _ _ vals _ _ => 5%nat                                      (* at least one more block is required *)
   | ClEth _ bd _ _ => if 0 <? bd then 5%nat else root_gate fx cns
   | ClTss addr _ => if bytes_eqb prf addr then 0%nat else 7%nat
@@ -269,6 +269,7 @@ Lemma installed_gate_tm_after tnow t fx prf l tr d y r cns :
   installed_gate tnow t fx prf (ClTm l tr d y r) cns = root_gate fx cns.
 Proof.
   intros B L. cbn. unfold add64. rewrite N.mod_small by exact B.
+  destruct (N.ltb_spec (tnow + y) tnow); [lia|].
   destruct (N.ltb_spec t (tnow + y)); [lia | reflexivity].
 Qed.
 
@@ -641,7 +642,7 @@ Definition header_valid_for (tnow : N) (c : client_state) (h : hdr) (s : cstore)
   | ClTss _ _, HTss _ _ => True
   | ClTm latest trusting drift _ _, HTm trusted hh cns hv =>
       hv = true /\ exists tc, get_cons TM trusted s = Some tc /\ fst hh = fst trusted /\ h_lt trusted hh = true /\
-                              tnow < cs_ts tc + trusting /\ cs_ts tc < cs_ts cns /\ cs_ts cns <= tnow + drift
+                              tnow < cs_ts tc + trusting /\ cs_ts tc < cs_ts cns /\ cs_ts cns < tnow + drift
   | ClBsc cur epoch vals _ _, HEvm BSC hd hv =>
       hv = true /\ epoch <> 0 /\
       snd (eh_height cur) = sub64 (snd (eh_height hd)) 1 /\ eh_hash cur = eh_parent hd /\
@@ -738,7 +739,7 @@ Proof.
     destruct V as (-> & tc & G & R & L & T1 & T2 & T3). cbn. unfold tm_update. rewrite G, R, N.eqb_refl, L.
     destruct (N.leb_spec (cs_ts tc + t) tnow); [lia|].
     destruct (N.ltb_spec (cs_ts tc) (cs_ts k)); [|lia].
-    destruct (N.leb_spec (cs_ts k) (tnow + d)); [|lia]. cbn.
+    destruct (N.ltb_spec (cs_ts k) (tnow + d)); [|lia]. cbn.
     destruct (tm_prune_ok t tnow s C) as [s1 ->]. cbn. eauto 6.
   - (* BSC *)
     destruct et; try contradiction.
